@@ -173,6 +173,9 @@ func cmdCheck(args []string) int {
 		if v, ok := params["MaxPaths"]; ok {
 			cfg.MaxPaths = v
 		}
+		if mp := os.Getenv("VERIF_MAXPATHS"); mp != "" {
+			fmt.Sscanf(mp, "%d", &cfg.MaxPaths)
+		}
 		pkgPath := repoMod + "/" + h.Pkg
 		entry := eng.Func(pkgPath, h.Name)
 		if entry == nil {
